@@ -2,7 +2,7 @@
 import ast
 
 from ..model import dotted, src, calls_in, AnalysisError
-from ..common import (fpaths, any_guard, status_key, const_str, same_expr, peel, actual, fxp_names_in, effective_owners)
+from ..common import (fpaths, any_guard, status_key, const_str, same_expr, peel, actual, fxp_names_in, effective_owners, store_status_key)
 from .. import anchors as A
 
 FLAGS = ("overflow", "underflow", "inaccuracy")
@@ -300,7 +300,7 @@ def reset_rule(ck, rule):
         cleared = set()
         rebound = None
         for st in pf.stores:
-            sk = status_key(st.target)
+            sk = store_status_key(st)
             if sk and sk[0] == "self" and isinstance(st.value, ast.Constant) and st.value.value is False and not st.guards:
                 cleared.add(sk[1])
             elif sk and sk[0] == "self" and sk[1] in FLAGS:
